@@ -17,9 +17,10 @@ Record rdecl := mkRD {
 Inductive sym :=
 | O (o : nat) (v : str) (src : list str)     (* occurrence of option o with value v *)
 | P (t : str)                                (* positional *)
-| DDTok.                                     (* the command line's first standalone "--" *)
-
-Inductive reading := Readable (u : list sym) | Unreadable.
+| DDTok                                      (* the command line's first standalone "--" *)
+| Bad (t : str)                              (* a token that cannot be read in option mode: undeclared
+                                                name, empty value, missing or dash-prefixed value *)
+| Raw (t : str).                             (* the tokens after it, not read *)
 
 Section Read.
   Variable D : rdecl.
@@ -82,23 +83,20 @@ Section Read.
       | [] => None
       end.
 
-  Fixpoint read (w : list str) : reading :=
+  (** reading stops at the first unreadable token: nothing in option mode can consume it, so
+      what follows only matters if a spec-level "--" turns the rest into positionals *)
+  Fixpoint read (w : list str) : list sym :=
     match w with
-    | [] => Readable []
+    | [] => []
     | t :: rest =>
-      if str_eqb t s_dd then Readable (DDTok :: map P rest)
-      else if str_eqb t s_dash || negb (dashed t) then
-        match read rest with Readable u => Readable (P t :: u) | Unreadable => Unreadable end
+      if str_eqb t s_dd then DDTok :: map P rest
+      else if str_eqb t s_dash || negb (dashed t) then P t :: read rest
       else
         match read_token t (hd_error rest) with
-        | None => Unreadable
+        | None => Bad t :: map Raw rest
         | Some (syms, used) =>
           (* when the next token was used as a value, skip it *)
-          match (if used then match rest with _ :: r2 => read r2 | [] => Readable [] end
-                 else read rest) with
-          | Readable u => Readable (syms ++ u)
-          | Unreadable => Unreadable
-          end
+          syms ++ (if used then match rest with _ :: r2 => read r2 | [] => [] end else read rest)
         end
     end.
 End Read.
@@ -177,7 +175,30 @@ Definition run_empty (u : list sym) : bool :=
   match u with O _ _ _ :: _ => false | _ => true end.
 
 Definition retokenize (u : list sym) : list str :=
-  flat_map (fun s => match s with O _ _ src => src | P t => [t] | DDTok => [s_dd] end) u.
+  flat_map (fun s => match s with
+                     | O _ _ src => src
+                     | P t | Bad t | Raw t => [t]
+                     | DDTok => [s_dd]
+                     end) u.
+
+Fixpoint seq_has_dd (s : seq) : bool :=
+  match s with
+  | SNil => false
+  | SCons c s' => choice_has_dd c || seq_has_dd s'
+  end
+with choice_has_dd (c : choice) : bool :=
+  match c with
+  | COne a => ratom_has_dd a
+  | CAlt a c' => ratom_has_dd a || choice_has_dd c'
+  end
+with ratom_has_dd (a : ratom) : bool :=
+  match a with RAtom a _ => atom_has_dd a end
+with atom_has_dd (a : atom) : bool :=
+  match a with
+  | ADD => true
+  | APar s | ASq s => seq_has_dd s
+  | _ => false
+  end.
 
 Section Match.
   Variable D : rdecl.
@@ -313,10 +334,11 @@ Section Match.
 
   (** is [w] a sentence of [e] (with [t = None]); is [t] a derivation of it (otherwise) *)
   Definition r_match (e : seq) (w : list str) (t : target) : verdict :=
-    match read (mkRD (rd_lookup D) (rd_isflag D) (rd_env D)) w with
-    | Unreadable => No
-    | Readable u => r_seq e (length u + 2) (mkRS u false t) final
-    end.
+    let u := read D w in
+    (* a spec with "--" is only claimed on command lines that read completely: the code may
+       consume part of an unreadable token before the "--" turns the rest into positionals *)
+    if seq_has_dd e && existsb (fun s => match s with Bad _ => true | _ => false end) u then Unclaimed
+    else r_seq e (length u + 2) (mkRS u false t) final.
 End Match.
 
 (** * Exclusions of the property text, made precise (DESIGN 4.5) *)
